@@ -3,4 +3,5 @@
 #include "net/stream.hpp"
 #define SIM_STREAM_TYPE ::sim::stream
 #define SIM_MAKE_FN make_client_A
+#define SIM_MAKE_MINI_FN make_mini_A
 #include "client_impl.inc"
